@@ -10,7 +10,7 @@ import (
 
 // Seg is one segment of a stream: exactly one of Text, Dump, Race is set.
 type Seg struct {
-	Text string `json:"text,omitempty"`
+	Text BinStr `json:"text,omitempty"`
 	Dump *Dump  `json:"dump,omitempty"`
 	Race *Race  `json:"race,omitempty"`
 }
@@ -31,7 +31,7 @@ func (s *Stream) Render() []byte {
 		case sg.Race != nil:
 			b.Write(sg.Race.Render())
 		default:
-			b.WriteString(sg.Text)
+			b.WriteString(string(sg.Text))
 		}
 	}
 	return b.Bytes()
@@ -42,7 +42,7 @@ func (s *Stream) PassThrough() []byte {
 	var b bytes.Buffer
 	for i := range s.Segs {
 		if s.Segs[i].Dump == nil && s.Segs[i].Race == nil {
-			b.WriteString(s.Segs[i].Text)
+			b.WriteString(string(s.Segs[i].Text))
 		}
 	}
 	return b.Bytes()
@@ -108,7 +108,7 @@ func GenStream(r *core.Rand, cfg *StreamCfg) *Stream {
 	}
 	text := func(n int) string { return Junk(r, &cfg.Junk, n, eol) }
 	if r.Chance(3, 4) {
-		s.Segs = append(s.Segs, Seg{Text: text(r.Intn(5))})
+		s.Segs = append(s.Segs, Seg{Text: BinStr(text(r.Intn(5)))})
 	}
 	all := AllFormats()
 	for i := 0; i < k; i++ {
@@ -119,7 +119,7 @@ func GenStream(r *core.Rand, cfg *StreamCfg) *Stream {
 			rc.NoFinalEOL = false
 			s.Segs = append(s.Segs, Seg{Race: rc})
 			if !last || r.Chance(2, 3) {
-				s.Segs = append(s.Segs, Seg{Text: text(r.Intn(4))})
+				s.Segs = append(s.Segs, Seg{Text: BinStr(text(r.Intn(4)))})
 			} else if r.Chance(1, 3) {
 				rc.NoFinalEOL = true
 			}
@@ -155,7 +155,7 @@ func GenStream(r *core.Rand, cfg *StreamCfg) *Stream {
 		if first == "==================" && !(d.F.Indent == "") {
 			first = "x" + first
 		}
-		s.Segs = append(s.Segs, Seg{Text: d.F.Indent + first + eol + text(r.Intn(3))})
+		s.Segs = append(s.Segs, Seg{Text: BinStr(d.F.Indent + first + eol + text(r.Intn(3)))})
 	}
 	if cfg.EndWithheld > 0 {
 		t := "=================="
@@ -167,9 +167,9 @@ func GenStream(r *core.Rand, cfg *StreamCfg) *Stream {
 		default:
 			t += eol + "WARNING: DATA RACE" + eol
 		}
-		s.Segs = append(s.Segs, Seg{Text: t})
+		s.Segs = append(s.Segs, Seg{Text: BinStr(t)})
 	} else if n := len(s.Segs); n > 0 && s.Segs[n-1].Dump == nil && s.Segs[n-1].Race == nil && r.Intn(10) < cfg.NoFinalEOLChance {
-		s.Segs[n-1].Text = strings.TrimSuffix(s.Segs[n-1].Text, eol)
+		s.Segs[n-1].Text = BinStr(strings.TrimSuffix(string(s.Segs[n-1].Text), eol))
 	}
 	// merge adjacent text segments
 	var out []Seg
@@ -187,7 +187,7 @@ func GenStream(r *core.Rand, cfg *StreamCfg) *Stream {
 	}
 	for i := range out {
 		if out[i].Dump == nil && out[i].Race == nil {
-			out[i].Text = defuseRaceStart(out[i].Text)
+			out[i].Text = BinStr(defuseRaceStart(string(out[i].Text)))
 		}
 	}
 	s.Segs = out
@@ -213,7 +213,7 @@ func defuseRaceStart(t string) string {
 func Normalize(s *Stream) *Stream {
 	for i := range s.Segs {
 		if s.Segs[i].Dump == nil && s.Segs[i].Race == nil {
-			s.Segs[i].Text = defuseRaceStart(s.Segs[i].Text)
+			s.Segs[i].Text = BinStr(defuseRaceStart(string(s.Segs[i].Text)))
 		}
 	}
 	return s
